@@ -42,7 +42,7 @@ P = {
    note="Trusted: the hand-written Nat oracle (self-validated on every run against u128 arithmetic, algebraic laws and python3 golden vectors); a Rust panic is an on-chain abort.",
    tech=PBT + ", differential against an independent bignum oracle", ref="C08"),
  "C09": dict(
-   text="Asset::assert_sent_native_token_balance is called directly on generated valid coin sets (prefix-related and case-variant denoms, the declared amount attached under another denom). Provide, execute-swap and cw20-hook calls naming native assets are generated with every declared-vs-attached relation (absent, less, equal, more, zero+absent, extra unrelated coins, other pair denom attached) on pairs with one and two native assets: success implies attached == declared and the pair's balance rose by exactly that; failure implies whole-state equality.",
+   text="Asset::assert_sent_native_token_balance is called directly on generated valid coin sets (prefix-related and case-variant denoms, the declared amount attached under another denom). Provide, execute-swap and cw20-hook calls naming native assets are generated with every declared-vs-attached relation (absent, less, equal, more, zero+absent, extra unrelated coins, other pair denom attached) on pairs with one and two native assets: success implies attached == declared and the pair's balance rose by exactly that; failure implies whole-state equality; and the LP minted by any successful provision into a live pool is bounded by what the attached coin of each native side justifies (no native value credited that was not attached).",
    note="Trusted: cw-multi-test chain model (valid coin sets only).",
    tech=PBT + ", implication oracle + whole-state equality on rejection", ref="C09"),
  "C10": dict(
